@@ -25,6 +25,7 @@ class WriteLog:
     def __init__(self, out_path):
         self.out = str(out_path)
         self.events = []   # (handle_no, mode, position, bytes)
+        self.ops = []      # every state-changing file operation in program order: ('write', pos, bytes) | ('truncate', size)
         self.n = 0
         self.real_open = builtins.open
 
@@ -37,7 +38,13 @@ class WriteLog:
 
             def write(self, b):
                 log.events.append((self.no, self.mode, self.f.tell(), bytes(b)))
+                log.ops.append(('write', self.f.tell(), bytes(b)))
                 return self.f.write(b)
+
+            def truncate(self, size=None):
+                size = self.f.tell() if size is None else int(size)
+                log.ops.append(('truncate', size))
+                return self.f.truncate(size)
 
             def __getattr__(self, k):
                 return getattr(self.f, k)
@@ -108,6 +115,78 @@ def crash_states(events, rng, quick):
                 yield (f'{lab} + footer {f}/{total - pre}', b + stream[pre:pre + f])
 
 
+def op_prefix_states(ops):
+    """the file as it is on disk after each prefix of the operations performed on it (writes at their positions, truncate /
+    pre-allocation included: a hole reads as zeros)"""
+    cur = bytearray()
+    yield ('0 operations', bytes(cur))
+    for k, op in enumerate(ops):
+        if op[0] == 'write':
+            pos, data = op[1], op[2]
+            if pos > len(cur):
+                cur.extend(bytes(pos - len(cur)))
+            cur[pos:pos + len(data)] = data
+        else:
+            size = op[1]
+            if size < len(cur):
+                del cur[size:]
+            else:
+                cur.extend(bytes(size - len(cur)))
+        yield (f'after {k + 1}/{len(ops)} file operations ({op[0]})', bytes(cur))
+
+
+def copy_case(ctx, rng, model, kind, cnum):
+    """interrupted *copies*: the cropper and the re-blocker write their output through the same kind of write sequence"""
+    from seismic_zfp.cropping import SgzCropper
+    from seismic_zfp.conversion import SgzConverter
+    n = (int(rng.integers(5, 9)), int(rng.integers(5, 9)), int(rng.integers(5, 12)))
+    arr = gen.cube(rng, n)
+    src = ctx.path('copysrc.sgz')
+    hd = {181: rng.integers(-99, 99, size=n[:2]), 185: rng.integers(-99, 99, size=n[:2])}
+    if kind == 'reblock':
+        conv.numpy_to_sgz(arr, src, 8, (4, 4, 1024), trace_headers=hd)
+    else:
+        conv.numpy_to_sgz(arr, src, [32, 16][cnum % 2], (4, 4, -1), trace_headers=hd)
+    out = ctx.path('copy.sgz')
+    with WriteLog(out) as wl:
+        if kind == 'reblock':
+            with SgzConverter(src) as c:
+                env.quiet(c.convert_to_adv_sgz, out)
+        else:
+            with SgzCropper(src) as c:
+                env.quiet(c.write_cropped_file_by_indexes, out, (0, n[0]), (0, 4), None)
+    full = open(out, 'rb').read()
+    with SgzReader(out) as r:
+        tcount = r.tracecount
+    lay = spec.read_header(out)[0].layout()
+    fi = readops.FileInfo(lay)
+    ops = [o for o in readcheck.in_range_ops(rng, fi, 1) if o[0] not in ('ilno', 'xlno', 'zsc', 'trc')][:10]
+    fields = list(spec.FIELDS)
+    truth = probe(out, ops, fields, tcount)
+    desc = {'route': kind, 'n': lay.n, 'bs': lay.bs, 'file_operations': [(o[0], o[1] if o[0] == 'truncate' else (o[1], len(o[2]))) for o in wl.ops][:14]}
+    states = list(op_prefix_states(wl.ops))[:-1]
+    if len(states) > 40:
+        keep = sorted(set([0, 1, 2, 3, len(states) - 1, len(states) - 2, len(states) - 3] + rng.integers(0, len(states), size=20).tolist()))
+        states = [states[j] for j in keep]
+    tr = sorted(set([len(full) - 1, len(full) - 512, 8192, 4096] + rng.integers(1, len(full), size=4).tolist()))
+    states += [(f'truncate {L}/{len(full)}', full[:L]) for L in tr if 0 < L < len(full)]
+    part = ctx.path('partial.sgz')
+    for label, content in states:
+        with open(part, 'wb') as f:
+            f.write(content)
+        got = probe(part, ops, fields, tcount)
+        ctx.case((cnum, kind, label), sample={'case': desc, 'state': label, 'open': got['open'][0]} if len(ctx.samples) < 8 else None)
+        ctx.stats['states'] += 1
+        ctx.stats['copy_states_' + kind] += 1
+        if got['open'][0] != 'ok':
+            continue
+        for k, v in got.items():
+            if v[0] == 'ok' and v != truth.get(k):
+                ctx.fail(f'partial {kind} output ({label}): {k} returned a value that differs from the complete file\'s',
+                         {'case': desc, 'state': label, 'call': k})
+                break
+
+
 def probe(path, ops, fields, tcount):
     """outcomes of every read path on the file at `path`"""
     out = {}
@@ -155,6 +234,8 @@ def run(ctx):
 
 def run_(ctx, model):
     rng = gen.rng_for(ctx.seed, 'c18')
+    for cnum, kind in enumerate(['reblock', 'crop'] * (1 if ctx.quick else 8)):
+        copy_case(ctx, rng, model, kind, cnum)
     cases = [('numpy', None), ('segy', 'heuristic'), ('segy', 'thorough'), ('segy', 'exhaustive'), ('segy', 'strip'),
              ('segy-const', 'thorough'), ('2d', 'heuristic')]
     if not ctx.quick:
@@ -198,6 +279,8 @@ def run_(ctx, model):
         desc = {'route': route, 'mode': mode, 'n': n_real, 'q': q, 'bs': lay.bs, 'writes': [(e[0], e[1], e[2], len(e[3])) for e in wl.events][:14]}
         part = ctx.path('partial.sgz')
         states = list(crash_states(wl.events, rng, ctx.quick))
+        if any(o[0] == 'truncate' for o in wl.ops):
+            states += list(op_prefix_states(wl.ops))[:-1]
         # byte truncations of the finished file
         tr = sorted(set([len(full) - 1, len(full) - 4, len(full) - 512, 8192, 8191, 4096] + rng.integers(1, len(full), size=(6 if ctx.quick else 60)).tolist()))
         states += [(f'truncate {L}/{len(full)}', full[:L]) for L in tr if 0 < L < len(full)]
